@@ -51,7 +51,7 @@ macro_rules! tag_optional_case {
         let mut members: Vec<&Field> = Vec::with_capacity(2);
         members.push(&f0);
         members.push(&f1);
-        let mut diagnostics = Diagnostics::verif_with_capacity(2);
+        let mut diagnostics = Diagnostics::new();
         validate_members(members, &mut diagnostics);
         let want = $ht && !$op;
         let ds = diagnostics.into_inner();
@@ -115,7 +115,7 @@ fn k04_tags_unique_2() {
     members.push(&f0);
     members.push(&fm);
     members.push(&f1);
-    let mut diagnostics = Diagnostics::verif_with_capacity(2);
+    let mut diagnostics = Diagnostics::new();
     validate_members(members, &mut diagnostics);
     let want = tg[0] == tg[1];
     kani::cover!(want && tg[0] == 2147483647, "duplicate of the largest tag reachable");
@@ -162,7 +162,7 @@ fn k04_tags_unique_3() {
     members.push(&f0);
     members.push(&f1);
     members.push(&f2);
-    let mut diagnostics = Diagnostics::verif_with_capacity(2);
+    let mut diagnostics = Diagnostics::new();
     validate_members(members, &mut diagnostics);
     let want = t2 == t0 || t2 == t1;
     kani::cover!(want && order == 2 && t0 < t1, "equal tags first and second in source, third larger reachable");
